@@ -127,6 +127,16 @@ def c01(tier, rep):
             src = r["sources"][m["src"] - 1] if m else r["sources"][0]
             rep.violation({"kind": "stream-totality"}, {"engine": "Trace_Stream", "what": "stream output differs from the specification / foreign exception",
                                                         "source": "".join(map(chr, src["data"])), "notes": r["notes"], "detail": m})
+    # tag lines INCLUDING the class of the recorded C04/C14 finding ('@ x'): whatever is reported there, it is a tag list or the library's error, never another exception
+    import linelevel as LL
+    ls, badt, res = LL.tags(5 if q else 6, (64, 32, 35, 120, 9), (32,), embed_every=1, tag="totality")
+    rep.add_tlc(f"MC_Tags[totality,len<={5 if q else 6}]", res, f"{len(ls)} tag lines through GherkinLine.tags and Parser.parse: no foreign exception (also inside the class of the recorded tag finding)")
+    rep.traces += len(ls)
+    for r in ls:
+        rep.case(("tag-line", tuple(r["line"])))
+    for b in badt:
+        if b["impl"][0] == "exception":
+            rep.violation({"kind": "tag-line-exception"}, {"engine": "tags", "what": "a tag line raised " + str(b["impl"][1]) + " instead of yielding tags or the library's error", "line": b["line"], "via": b["via"]})
     # the scanner: every small argument against a small file system, the reading machine run to the end (MC_Scanner); the real TokenScanner must do exactly
     # what the AS-IMPLEMENTED stream says -- inside the recorded finding class (an argument naming an existing path) that is the recorded deviation and no more
     import scanner as SC
